@@ -140,6 +140,8 @@ def make_matrix(spec: dict) -> np.ndarray:
     if kind in ("gen_sym", "gen_asym"):
         np.fill_diagonal(M, 0)
         np.fill_diagonal(M, -M.sum(axis=1))
+    # magnitudes: rate matrices come in arbitrary units; a power of two keeps integer-valued sums exact
+    M = M * (2.0 ** spec.get("scale_pow2", 0))
     return np.ascontiguousarray(M, dtype=float)
 
 
@@ -199,7 +201,8 @@ class MergerCheck(Check):
             n = rng.choice([2, 3, 3, 4, 4, 5, 5, 6, 6, 7, 8, rng.randint(9, 29)])
         spec = {"n": n, "kind": rng.choice(["gen_sym", "gen_asym", "arb", "arb_sym"]),
                 "values": "int" if rng.random() < 0.7 else "real", "seed": rng.randrange(2 ** 32),
-                "density": rng.choice([0.2, 0.6, 1.0])}
+                "density": rng.choice([0.2, 0.6, 1.0]),
+                "scale_pow2": rng.choice([0, 0, 0, -40, -30, -20, -10, 20, 50])}
         model = PartitionModel(n)  # strict model, used only to bias generation
         ops = []
         n_ops = rng.randint(1, 8)
@@ -362,6 +365,7 @@ class MergerCheck(Check):
             upper = rng.choice(cands)
         return {"kind": "cut_and_merge", "n": n, "pairs": pairs, "energies": energies, "T": T,
                 "lower": lower, "upper": upper, "seed": rng.randrange(2 ** 32),
+                "D": rng.choice([1.0, 1.0, 2.0 ** -40, 2.0 ** -20, 2.0 ** 30]),
                 "fmt": rng.choice(["coo", "csr"]), "ops": []}
 
     # ------------------------------------------------------------------ execution
@@ -403,7 +407,7 @@ class MergerCheck(Check):
             raise Violation("shape", f"{what}: matrix shape {A.shape} but {k} groups")
         zero_rows_in = spec["kind"] in ("gen_sym", "gen_asym")
         E = lumped(M0, accepted, zero_rows=deleted_any)
-        scale = max(1.0, float(np.abs(M0).max()) * M0.shape[0])
+        scale = float(np.abs(M0).max()) * M0.shape[0]
         tol = 0.0 if exact else 1e-12 * scale
         off = ~np.eye(k, dtype=bool)
         if k > 1:
@@ -437,7 +441,7 @@ class MergerCheck(Check):
         probes = {}
         model = PartitionModel(spec["n"])
         cur_d, cur_s, il_d, il_s = M0.copy(), csr_array(M0), None, None
-        sig = [spec["kind"], spec["values"], _bucket(spec["n"])]
+        sig = [spec["kind"], spec["values"], _bucket(spec["n"]), spec.get("scale_pow2", 0)]
         changed_ops = 0
         log.add("caller", "start", [spec["kind"], spec["n"], spec["values"]], digest_array(M0))
         for step, op in enumerate(sc["ops"]):
@@ -538,7 +542,7 @@ class MergerCheck(Check):
             raise Violation(oracle, f"{what}: shapes differ {A.shape} vs {B.shape}")
         if A.size == 0:
             return
-        tol = 0.0 if exact else 1e-12 * max(1.0, float(np.abs(M0).max()) * M0.shape[0])
+        tol = 0.0 if exact else 1e-12 * float(np.abs(M0).max()) * M0.shape[0]
         if np.abs(A - B).max() > tol:
             raise Violation(oracle, f"{what}: matrices differ by {np.abs(A - B).max()!r}")
 
@@ -570,7 +574,7 @@ class MergerCheck(Check):
         what = f"cut_and_merge(n={n}, lower={lower}, upper={upper})"
         with lib_call("SQRA.get_rate_matrix"):
             sq = tr.SQRA(energies=E, volumes=V, distances=h, surfaces=s)
-            Q = sq.get_rate_matrix(1.0, T)
+            Q = sq.get_rate_matrix(sc.get("D", 1.0), T)
         Q0 = Q.toarray()
         with lib_call(what):
             R, il = sq.cut_and_merge(Q.copy(), T=T, lower_limit=lower, upper_limit=upper)
@@ -670,6 +674,10 @@ class MergerCheck(Check):
                 c = copy.deepcopy(sc)
                 c["matrix"]["n"] = new_n
                 yield c
+        if sc["matrix"].get("scale_pow2", 0) != 0:
+            c = copy.deepcopy(sc)
+            c["matrix"]["scale_pow2"] = 0
+            yield c
         if sc["matrix"]["values"] != "int":
             c = copy.deepcopy(sc)
             c["matrix"]["values"] = "int"
